@@ -4,7 +4,7 @@ import StorageModel.Base.Bytes
   Tx/Wire — line protocol of the C07 / C08 drivers: case parser and canonical rendering of
   results, logs and the leaf dump of the database.  Used only by the drivers, never by a proof.
 
-  case  := "E" nP reg* nC reg* txl ["I" nIxP ixreg* nIxC ixreg*] ["D" nD reg* nIxD ixreg*] "T" ntx tx*
+  case  := "E" ["S"] nP reg* nC reg* txl ["I" nIxP ixreg* nIxC ixreg*] ["D" nD reg* nIxD ixreg*] "T" ntx tx*
            (the D section: registrations and custom index-stage constraints of the second child store)
   ixreg := nveto (stage id)*                  stage: b (ProcessBeforeUpdate) a (ProcessAfterUpdate) d (ProcessBeforeDelete); B A D: the veto is a RecordNotFoundError
            custom boltz.Constraint registered with AddConstraint on the parent / child store
@@ -16,7 +16,10 @@ import StorageModel.Base.Bytes
            (nb / nB: nested Db.Update / Db.Batch with the bound context; sys: switch to the system context)
   fault := "-" | "lP"n | "lC"n | "pP"n | "pC"n
   op    := "cr" σ id fields rank | "up" σ id fields rank | "de" σ id | "dw" σ query
-  fields:= name nroles role* ref ["G" n tag*]   ref: "~" = nil
+           ("S": the harness passes the additional change types of all listener registrations through ONE
+            reused slice with spare capacity and overwrites it afterwards — no difference for model or spec)
+  fields:= name nroles role* ref ["G" n tag*] ["K" n id*]   ref: "~" = nil; K: linked ids (groups)
+  step  += "lk" ("a" | "r" | "s") id n target*   AddLinks / RemoveLinks / SetLinks by the transaction function
   tag   := nseg seg* leaf                    the entity's tags map, one entry per leaf / empty container
   seg   := "k" key | "i" index
   leaf  := "s" string | "t" | "f" (bool) | "n" (nil) | "u" (uint16) | "S" ([]string) | "m" (empty map) | "l" (empty list)
@@ -197,11 +200,13 @@ def fields : P PFields := fun ts => do
   let (roles, ts) ← counted str ts
   let (r, ts) ← tok ts
   let ref ← if r = "~" then some none else (parseStr r).map some
-  match ts with
-  | "G" :: ts =>
-    let (tags, ts) ← counted tagEntry ts
-    pure ({ name := name, roles := roles, ref := ref, tags := tags }, ts)
-  | _ => pure ({ name := name, roles := roles, ref := ref }, ts)
+  let (tags, ts) ← (match ts with
+    | "G" :: ts => counted tagEntry ts
+    | _ => some ([], ts) : Option (List TagEntry × List String))
+  let (links, ts) ← (match ts with
+    | "K" :: ts => counted str ts
+    | _ => some ([], ts) : Option (List String × List String))
+  pure ({ name := name, roles := roles, ref := ref, tags := tags, links := links }, ts)
 
 def op : P Op := fun ts => do
   let (t, ts) ← tok ts
@@ -255,6 +260,16 @@ def step : P Step := fun ts => do
   | "fail1" =>
     let (n, ts) ← nat ts
     pure (.fail1 n, ts)
+  | "lk" =>
+    let (o, ts) ← tok ts
+    let op ← match o with
+      | "a" => some LinkOp.add
+      | "r" => some LinkOp.remove
+      | "s" => some LinkOp.set
+      | _ => none
+    let (id, ts) ← str ts
+    let (targets, ts) ← counted str ts
+    pure (.link op id targets, ts)
   | "ac" =>
     let (n, ts) ← nat ts
     pure (.addCommit n, ts)
@@ -299,6 +314,7 @@ def parseCase (line : String) : Option Case := do
   let (e, ts) ← tok ts
   if e ≠ "E" then none
   else
+    let ts := match ts with | "S" :: r => r | _ => ts
     let ((rp, op), ts) ← countedRegs ts
     let ((rc, oc), ts) ← countedRegs ts
     let (txl, ts) ← nat ts
@@ -376,6 +392,7 @@ def renderErr : Err → String
   | .load => "load"
   | .persist => "persist"
   | .unsupported => "unsupported"
+  | .linkMissing => "fk"
 
 def b01 (b : Bool) : String := if b then "1" else "0"
 
@@ -475,12 +492,15 @@ def dumpLeaves (db : Db) : List String :=
      base ++ "ref=" ++ (match p.2.f.ref with | none => abbr (String.ofList [Char.ofNat 7]) | some r => abbr (typed r))]
     ++ p.2.f.roles.map (fun r => base ++ "roles/" ++ abbr (typed r) ++ "=-")
     ++ tagLeaves base p.2.f.tags
+    ++ p.2.f.links.map (fun q => base ++ "groups/" ++ abbr (typed q) ++ "=-")
+    ++ p.2.f.links.map (fun q => "u/groups/" ++ abbr q ++ "/members/" ++ abbr (typed p.1) ++ "=-")
     ++ ((db.filter fun q => refBytes q.2.f.ref == p.1 && p.1 != "").map fun q => base ++ "backrefs/" ++ abbr (typed q.1) ++ "=-")
     ++ (match p.2.child with | none => [] | some r => [base ++ "ext/rank=" ++ abbr (typed r)])
     ++ (match p.2.child2 with | none => [] | some g => [base ++ "ext2/grade=" ++ abbr (typed g)])
     ++ ["u/indexes/things/name/" ++ abbr p.2.f.name ++ "=" ++ abbr p.1]
     ++ p.2.f.roles.map (fun r => "u/indexes/things/roles/" ++ abbr r ++ "/" ++ abbr (typed p.1) ++ "=-")
-  sortStr (db.flatMap ent)
+  -- the entities of the second root store exist from the start
+  sortStr (db.flatMap ent ++ qIds.map fun q => "u/groups/" ++ abbr q ++ "/name=" ++ abbr (typed ("g_" ++ q)))
 
 def renderList (l : List String) : String := "[" ++ ",".intercalate l ++ "]"
 
